@@ -286,6 +286,7 @@ func (d *driver) report(all []*result, loadTime float64) int {
 		"unconfirmed":              nUnconfirmed,
 		"load_time_s":              round2(loadTime),
 		"exhaustive":               false,
+		"code_coverage":            d.codeCov,
 	}
 	ev["property_id"] = d.prop
 	ev["tier"] = d.tier
